@@ -1,6 +1,190 @@
 import CkbVerif.Driver.Util
+import CkbVerif.Model.Store
+
+/-! Line-protocol driver for C02 (protocol: see harness/n02/src/c02.rs).  Every state-changing op
+is answered with the canonical dump of the model's view. -/
 namespace CkbVerif.Driver.C02
-def main (_args : List String) : IO UInt32 := do
-  IO.eprintln "C02: model driver not implemented"
-  return 2
+open CkbVerif.Driver CkbVerif.Store
+
+def ZERO_ID : Nat := 4000000000
+
+structure St where
+  v : View := View.empty
+  txs : List (Nat × Tx) := []
+  blocks : List (Nat × Block) := []
+  /-- views after every state op (snapshots are values) -/
+  snaps : Array View := #[]
+  elen : Nat := 0
+
+def lookup {β : Type} (l : List (Nat × β)) (k : Nat) : Option β :=
+  match l.find? (fun p => p.1 == k) with
+  | some p => some p.2
+  | none => none
+
+def sortNat (l : List Nat) : List Nat := l.mergeSort (fun a b => a ≤ b)
+
+def join (l : List String) : String := if l.isEmpty then "-" else ",".intercalate l
+
+def epS (e : Ep) : String := s!"{e.number}.{e.index}.{e.length}"
+
+def dataS (o : Output) : String := if o.dlen = 0 then "-" else s!"{o.dlen}.{o.dtag}"
+
+/-- binary search in an array sorted by key -/
+def bsearch {β : Type} (a : Array (Nat × β)) (k : Nat) : Option β :=
+  let rec go (fuel lo hi : Nat) : Option β :=
+    match fuel with
+    | 0 => none
+    | fuel + 1 =>
+      if lo ≥ hi then none else
+      let mid := (lo + hi) / 2
+      match a[mid]? with
+      | none => none
+      | some (k', v) =>
+        if k' = k then some v
+        else if k' < k then go fuel (mid + 1) hi
+        else go fuel lo mid
+  go (a.size + 2) 0 a.size
+
+def opCode (o : OutPoint) : Nat := o.tx * 4096 + o.idx
+
+/-- Re-tabulate the two big maps over the known key universe (extensionally the identity on it):
+keeps look-ups logarithmic instead of linear in the number of updates ever made. -/
+def normalize (s : St) (v : View) : View :=
+  let txIds := sortNat (s.txs.map (·.1))
+  let cellTab : Array (Nat × CellRow) := Id.run do
+    let mut a := #[]
+    for t in txIds do
+      match lookup s.txs t with
+      | none => pure ()
+      | some tx =>
+        for i in List.range tx.outputs.length do
+          match v.m.cells ⟨t, i⟩ with
+          | some row => a := a.push (opCode ⟨t, i⟩, row)
+          | none => pure ()
+    return a
+  let infoTab : Array (Nat × TxInfo) := Id.run do
+    let mut a := #[]
+    for t in txIds do
+      match v.m.txInfo t with
+      | some i => a := a.push (t, i)
+      | none => pure ()
+    return a
+  { v with m := { v.m with cells := fun o => if o.idx < 4096 then bsearch cellTab (opCode o) else none,
+                           txInfo := fun t => bsearch infoTab t } }
+
+def dump (s : St) (v : View) : String :=
+  let txIds := sortNat (s.txs.map (·.1))
+  let blkIds := sortNat (s.blocks.map (·.1))
+  let maxNum := s.blocks.foldl (fun m p => max m p.2.number) 0
+  let cellRows : List (OutPoint × CellRow) := txIds.flatMap fun t =>
+    match lookup s.txs t with
+    | none => []
+    | some tx => (List.range tx.outputs.length).filterMap fun i =>
+        (v.m.cells ⟨t, i⟩).map fun row => (⟨t, i⟩, row)
+  let cell := cellRows.map fun (o, r) => s!"{o.tx}:{o.idx}@{r.blockId}/{r.number}/{epS r.epoch}/{r.txIndex}/{r.out.dlen}/="
+  let data := cellRows.map fun (o, r) => s!"{o.tx}:{o.idx}/{dataS r.out}"
+  let txinfo := txIds.filterMap fun t => (v.m.txInfo t).map fun i => s!"{t}@{i.blockId}/{i.index}/{i.number}/{epS i.epoch}"
+  let index := (List.range (maxNum + 1)).filterMap fun n => (v.m.index n).map fun b => s!"{n}:{b}"
+  let rindex := blkIds.filterMap fun b => (v.m.rindex b).map fun n => s!"{b}:{n}"
+  let uncles := blkIds.filterMap fun b => (v.m.uncles b).map fun _ => s!"{b}"
+  let bepoch := blkIds.filterMap fun b => (v.r.blockEpoch b).map fun k => s!"{b}:{k}"
+  let epoch := (blkIds ++ [ZERO_ID]).filterMap fun k => (v.r.epochExt k).map fun e => s!"{k}:{e.number}/{e.start}/{e.length}"
+  let epnum := (List.range (maxNum + 2)).filterMap fun n => (v.r.epochNum n).map fun k => s!"{n}:{k}"
+  let ext := blkIds.filterMap fun b => (v.r.ext b).map fun e =>
+    let vs := match e.verified with | some true => "T" | some false => "F" | none => "N"
+    let fs := if e.fees.isEmpty then "-" else ".".intercalate (e.fees.map toString)
+    s!"{b}:{vs}/{e.td}/{e.uncles}/{fs}"
+  let metaS := (match v.m.tip with | some t => [s!"tip:{t}"] | none => []) ++
+    (match v.m.curEpoch with | some e => [s!"cur:{e.number}/{e.start}/{e.length}/{e.key}"] | none => [])
+  s!"cell={join cell} data={join data} dhash={join data} txinfo={join txinfo} index={join index} rindex={join rindex} uncles={join uncles} bepoch={join bepoch} epoch={join epoch} epnum={join epnum} ext={join ext} meta={join metaS}"
+
+def kv (tok key : String) : Option String :=
+  if tok.startsWith (key ++ "=") then some (tok.drop (key.length + 1)).toString else none
+
+def parseOut (s : String) : Option Output :=
+  if s = "-" then some ⟨0, 0⟩ else
+  match s.splitOn "." with
+  | [a, b] => do pure ⟨← parseNat? a, ← parseNat? b⟩
+  | _ => none
+
+def parseOuts (s : String) : Option (List Output) := (s.splitOn ",").mapM parseOut
+
+def parseIn (s : String) : Option OutPoint :=
+  match s.splitOn ":" with
+  | [a, b] => do pure ⟨← parseNat? a, ← parseNat? b⟩
+  | _ => none
+
+def parseIns (s : String) : Option (List OutPoint) :=
+  if s = "-" then some [] else (s.splitOn ",").mapM parseIn
+
+def parseEp (s : String) : Option Ep :=
+  match s.splitOn "." with
+  | [a, b, c] => do pure ⟨← parseNat? a, ← parseNat? b, ← parseNat? c⟩
+  | _ => none
+
+/-- record the new view as a snapshot and answer with its dump -/
+def commit (s : St) (v : View) (pre : String) : St × String :=
+  let v := normalize s v
+  let s := { s with v := v, snaps := s.snaps.push v }
+  (s, pre ++ dump s v)
+
+def step (s : St) (ts : List String) : St × String :=
+  match ts with
+  | ["cfg", l, _, _, _] =>
+    match parseNat? l with
+    | some l => ({ elen := l }, "ok")
+    | none => (s, "bad-op")
+  | ["gtx", id, outs] =>
+    match parseNat? id, (kv outs "out").bind parseOuts with
+    | some id, some outs => ({ s with txs := (id, { id := id, inputs := [], outputs := outs }) :: s.txs }, "ok")
+    | _, _ => (s, "bad-op")
+  | ["genesis", txs] =>
+    match (kv txs "txs").bind parseNatList? with
+    | some ids =>
+      match ids.mapM (lookup s.txs) with
+      | some txl =>
+        let g : Block := { id := 0, parent := 0, number := 0, epoch := ⟨0, 0, 0⟩, txs := txl, uncles := [],
+                           isHead := true, epochRec := ⟨0, 0, s.elen, ZERO_ID⟩ }
+        let s := { s with blocks := [(0, g)] }
+        commit s (init g) ""
+      | none => (s, "bad-op")
+    | none => (s, "bad-op")
+  | ["tx", id, fee, _salt, ins, outs] =>
+    match parseNat? id, (kv fee "fee").bind parseNat?, (kv ins "in").bind parseIns, (kv outs "out").bind parseOuts with
+    | some id, some fee, some ins, some outs =>
+      ({ s with txs := (id, { id := id, inputs := ins, outputs := outs, fee := fee }) :: s.txs }, "ok")
+    | _, _, _, _ => (s, "bad-op")
+  | ["block", id, parent, _salt, epf, cb, cbid, txs, _props, uncles] =>
+    match parseNat? id, parseNat? parent, (kv epf "ep").bind parseEp, (kv cb "cb").bind parseNat?,
+          (kv cbid "cbid").bind parseNat?, (kv txs "txs").bind parseNatList?, (kv uncles "uncles").bind parseNatList? with
+    | some id, some parent, some e, some cb, some cbid, some txIds, some uncles =>
+      match lookup s.blocks parent, txIds.mapM (lookup s.txs) with
+      | some p, some txl =>
+        let cbTx : Tx := { id := cbid, inputs := [], outputs := if cb = 0 then [] else [⟨0, 0⟩] }
+        let number := p.number + 1
+        let isHead := e.index == 0
+        let rec_ : EpochRec := if isHead then ⟨e.number, number, e.length, parent⟩ else p.epochRec
+        let b : Block := { id := id, parent := parent, number := number, epoch := e, txs := cbTx :: txl,
+                           uncles := uncles, isHead := isHead, epochRec := rec_ }
+        let s := { s with blocks := (id, b) :: s.blocks,
+                          txs := if (lookup s.txs cbid).isSome then s.txs else (cbid, cbTx) :: s.txs }
+        commit s (process s.v b) "new "
+      | _, _ => (s, "bad-op")
+    | _, _, _, _, _, _, _ => (s, "bad-op")
+  | ["truncate", id] =>
+    match parseNat? id with
+    | some id => commit s (truncate s.v id) "ok "
+    | none => (s, "bad-op")
+  | ["snap", k] =>
+    match parseNat? k with
+    | some k =>
+      match s.snaps[k]? with
+      | some v => (s, dump s v)
+      | none => (s, "bad-op")
+    | none => (s, "bad-op")
+  | _ => (s, "bad-op")
+
+def main (_args : List String) : IO UInt32 :=
+  runLines ({} : St) step
+
 end CkbVerif.Driver.C02
